@@ -16,6 +16,7 @@ C05 line-protocol driver.   One case = one line of three or four fields:
          | x SRC                        the real `error` handler            SRC = 0 no status_code,
          | y SRC                        the real `static_response` handler        1 "{http.error.status_code}",
          | i NAME                       the real `invoke` handler (NAME ≥ 1)
+         | z                            the real `rewrite` handler with strip_path_prefix "/a" (path 6 = the empty path)
                                                                                   2 not a number, else the number
   errors   `-` (Server.Errors == nil) or a route list
   request  method,host,path,header      indices into the alphabets (2, 3, 6, 3; header 0 = absent)
@@ -136,6 +137,7 @@ partial def pHandler : P Handler
   | "y" :: toks => do
     let (s, toks) ← pNat toks
     pure (.answer (srcOf s), toks)
+  | "z" :: toks => pure (.strip, toks)
   | "i" :: toks => do
     let (n, toks) ← pNat toks
     pure (.invoke n, toks)
@@ -224,6 +226,7 @@ def hValid : Handler → Bool
   | .pass _ => true
   | .respond _ st => 200 ≤ st && st ≤ 599
   | .rewrite _ p => p < 6
+  | .strip => true
   | .fail _ st => errStatusOk st
   | .raise src => srcOk 400 src
   | .answer src => srcOk 200 src
@@ -249,7 +252,7 @@ def showTrace (t : Trace) : String :=
   if t.isEmpty then "-" else
   ",".intercalate (t.map fun e =>
     if e == hintEv then "H" else
-    let p := if e.uri == e.path then toString e.path else s!"{e.path}!{e.uri}"
+    let p := if e.uri == requestLineOf e.path then toString e.path else s!"{e.path}!{e.uri}"
     if e.repl == e.err then s!"{e.id}.{p}.{showErr e.err}"
     else s!"{e.id}.{p}.{showErr e.err}/{showErr e.repl}")
 
@@ -495,6 +498,7 @@ def encHandler : Handler → List String
   | .pass id => ["p", toString id]
   | .respond id st => ["r", toString id, toString st]
   | .rewrite id p => ["w", toString id, toString p]
+  | .strip => ["z"]
   | .fail id st => ["f", toString id, toString st]
   | .raise src => ["x", toString (srcNo src)]
   | .answer src => ["y", toString (srcNo src)]
